@@ -58,23 +58,28 @@ def refToColl (cs : Components) : OSR → Bool
   | .mk ref _ _ _ =>
     isRef ref && (match lookupComp cs (lastSegment ref) with | some t => osrIsColl t | none => false)
 
+/-- the kind test of `fragS`; `fItems` / `fAddl` / `fProps`: the sub-schemas are in the fragment -/
+def kindOK (a : OAttrs) (props : List (String × OSR)) (addl items : OOpt) (fItems fAddl fProps : Bool) : Bool :=
+  match a.enum with
+  | some vs => !vs.isEmpty && (typeIs a "string" || typeIs a "integer") && !a.nullable
+  | none =>
+    if typeIs a "string" then a.format ≠ "byte" && patternOK a
+    else if typeIs a "integer" || typeIs a "number" then true
+    else if typeIs a "boolean" then !a.nullable
+    else if typeIs a "array" then !a.nullable && fItems && isSome' items
+    else if typeIs a "object" then
+      (if props.isEmpty then (!isSome' addl || (!a.nullable && fAddl))
+       else !a.nullable && a.addlHas == some false && !isSome' addl && sortedKeys props && fProps)
+    else true
+
 mutual
 def fragR (cs : Components) : OSR → Bool
   | .mk ref hasValue _ v => if isRef ref then refOK cs ref else hasValue && fragS cs v
 def fragS (cs : Components) : OS → Bool
   | .mk a allOf anyOf oneOf props addl items =>
-    !a.hasAllOf && !a.hasAnyOf && !a.hasOneOf &&
-    (match a.enum with
-     | some vs => !vs.isEmpty && (typeIs a "string" || typeIs a "integer") && !a.nullable
-     | none =>
-       if typeIs a "string" then a.format ≠ "byte" && patternOK a
-       else if typeIs a "integer" || typeIs a "number" then true
-       else if typeIs a "boolean" then !a.nullable
-       else if typeIs a "array" then !a.nullable && fragO cs items && isSome' items
-       else if typeIs a "object" then
-         (if props.isEmpty then (match addl with | .some r => !a.nullable && fragR cs r | .none => true)
-          else !a.nullable && a.addlHas == some false && !isSome' addl && sortedKeys props && fragP cs a.required props)
-       else true)
+    !a.hasAllOf && !a.hasAnyOf && !a.hasOneOf && allOf.isEmpty && anyOf.isEmpty && oneOf.isEmpty &&
+    (!a.isEmpty || osIsAny (.mk a allOf anyOf oneOf props addl items)) &&
+    kindOK a props addl items (fragO cs items) (fragO cs addl) (fragP cs a.required props)
 def fragO (cs : Components) : OOpt → Bool
   | .none => true
   | .some r => fragR cs r
@@ -83,11 +88,17 @@ def fragP (cs : Components) (required : List String) : List (String × OSR) → 
   | (k, r) :: ps => fragR cs r && (required.contains k || !refToColl cs r) && fragP cs required ps
 end
 
-/-- every component of the table is in the fragment -/
-def FragOA (cs : Components) : Bool := cs.all fun c => fragR cs c.2
+def keysNodupC : Components → Bool
+  | [] => true
+  | (k, _) :: rest => !(rest.any fun c => c.1 == k) && keysNodupC rest
 
-/-- the root component is one a reference may point to -/
-def rootFrag (cs : Components) (root : String) : Bool := refOK cs ("#/components/schemas/" ++ root)
+/-- every component of the table is in the fragment; the component names are unique (they are map keys) -/
+def FragOA (cs : Components) : Bool := keysNodupC cs && cs.all fun c => fragR cs c.2
+
+/-- the root component is one a reference may point to (and its name has no `/`: the generator names a reference by
+    the last `/`-segment of the reference text) -/
+def rootFrag (cs : Components) (root : String) : Bool :=
+  refOK cs ("#/components/schemas/" ++ root) && lastSegment ("#/components/schemas/" ++ root) == root
 
 /-! ### why is a table outside the fragment? (diagnostic) -/
 
